@@ -15,6 +15,10 @@ Reads the `//@ lemma name(params) {lean: ...}: body` lines of the three contract
     name must have a `def`/`abbrev` of the same name in the vocabulary of SecpSMT.lean (before section 3),
   * checks that every line between `-- BEGIN SHARED` and `-- END SHARED` of SecpSMT2.lean (the vocabulary it has
     to repeat because it cannot import SecpSMT.lean) is verbatim a line of SecpSMT.lean,
+  * checks the mechanical statement check (gen_statements.py, same directory): every lemma line must have a generated
+    `example : <translated statement> := by with_reducible exact SecpSMT.<name>` in Secp/GenSMT.lean or Secp/GenSMT2.lean,
+    and the two files must be exactly what the generator produces now (whether the examples COMPILE is build.sh's
+    business: build/stamp.json, "mechanical_statement_check"),
   * rewrites the block between `<!-- BEGIN SMT LEMMAS -->` and `<!-- END SMT LEMMAS -->` of ../README.md
     (statement column = source text from `theorem` up to `:=`, whitespace collapsed).
 Plain python3, no third-party modules.  usage: smt_table.py [--check]   (--check: do not rewrite README.md)
@@ -26,6 +30,9 @@ import sys
 
 here = os.path.dirname(os.path.abspath(__file__))
 root = os.path.dirname(here)
+sys.path.insert(0, here)
+sys.dont_write_bytecode = True
+import gen_statements  # noqa: E402
 CONTRACTS = ["/repo/internal/field/contracts_verif.go", "/repo/internal/scalar/contracts_verif.go",
              "/repo/contracts_verif.go"]
 CLIENT_GLOB = "/verif/clients/*.go"   # lemma programs of package secp256k1: same `//@` syntax and vocabulary
@@ -197,6 +204,18 @@ def main():
         print("theorem declared twice:", d); bad = 1
     for l in shared_mismatches():
         print("SecpSMT2.lean SHARED line is not a line of SecpSMT.lean:", l[:100]); bad = 1
+    gfiles, grows, gnotes = gen_statements.generate()
+    gex = {}
+    for gen, text in gfiles.items():
+        gpath = os.path.join(root, "Secp", gen + ".lean")
+        if not os.path.exists(gpath) or open(gpath, encoding="utf-8").read() != text:
+            print("Secp/%s.lean is missing or is not the current output of gen_statements.py (run it, or build.sh)" % gen); bad = 1
+        gex.update(gen_statements.example_lines(gen)[0])
+    for gname, gwhere, gen, gst, gerr in grows:
+        if gst is None:
+            print("lemma not translated by gen_statements.py: %s (%s): %s" % (gname, gwhere, gerr)); bad = 1
+        elif gname not in gex:
+            print("no generated `example` for lemma %s in Secp/GenSMT.lean / Secp/GenSMT2.lean" % gname); bad = 1
     vdefs = vocabulary_defs()
     for name, f in client_vocabulary():
         if name not in vdefs:
@@ -242,8 +261,8 @@ def main():
     for name in ASSUMED:
         if name not in seen:
             print("ASSUMED allowlist entry without a lemma line:", name); bad = 1
-    print("%d lemma lines, %d with a theorem, %d assumed (intentionally unproved: %s)"
-          % (len(lem), nthm, len(ASSUMED), ", ".join(sorted(ASSUMED)) or "none"))
+    print("%d lemma lines, %d with a theorem, %d with a generated example, %d assumed (intentionally unproved: %s)"
+          % (len(lem), nthm, len([n for n, _, _, _ in lem if n in gex]), len(ASSUMED), ", ".join(sorted(ASSUMED)) or "none"))
     if not check_only:
         p = os.path.join(root, "README.md")
         s = open(p, encoding="utf-8").read()
